@@ -143,6 +143,32 @@ fn check_value(kind: &'static str, is_mask: bool, n: u32, label: &str, out: &mut
             )),
         }
     }
+    // literal parameters with the values 0..=4 and 1..=8 surplus words (a surplus that happens to be a multiple of a
+    // parameter's value is a surplus all the same)
+    if gold_params.iter().any(|p| p == "LiteralBit32") {
+        'lits: for lit in 0..=4u32 {
+            let mut v = carrier(kind);
+            v.args.push(if is_mask { Arg::Mask(kind, n) } else { Arg::Enum(kind, n) });
+            for (i, p) in gold_params.iter().enumerate() {
+                v.args.push(if p == "LiteralBit32" { Arg::Lit32(lit) } else { arg_of_param_kind(p, 500 + i as u32) });
+            }
+            let base = enc(&v);
+            for surplus in 1..=8usize {
+                let mut more = base.clone();
+                for k in 0..surplus {
+                    more.push(if k % 2 == 0 { 9 } else { 1 });
+                }
+                more[0] = ((more.len() as u32) << 16) | (more[0] & 0xFFFF);
+                match parse_one(&more) {
+                    Err(e) if !e.starts_with("panic") => {}
+                    got => {
+                        out.push(viol(format!("C17:{}::{}:parser-surplus", kind, label), format!("parser fed {} (literal parameters = {}) plus {} surplus words gave {:?}", v.short(), lit, surplus, got.map(|x| x.len())), json!({"kind": "c17", "operand_kind": kind, "value": n, "literal": lit, "surplus": surplus})));
+                        break 'lits;
+                    }
+                }
+            }
+        }
+    }
     // one surplus word
     let mut more = words.clone();
     more.push(777);
@@ -227,6 +253,35 @@ pub fn run(tier: Tier) -> Run {
                     let args = if is_mask { crate::universe::mask_with_params(k, n, 500) } else { crate::universe::enum_with_params(k, n, 500) };
                     let inst = crate::universe::with_operand(gi, *pos, args);
                     let words = enc(&inst);
+                    // every id the instruction mentions is ALSO the id of a 64-bit integer type declared in front of it (and,
+                    // a second time, of a 64-bit float): parameters are decoded by the grammar's kinds, not by what an id
+                    // near them happens to be
+                    for float in [false, true] {
+                        let mut ids: Vec<u32> = inst.args.iter().filter_map(|a| match a {
+                            Arg::IdRef(x) | Arg::IdScope(x) | Arg::IdMemSem(x) => Some(*x),
+                            _ => None,
+                        }).chain(inst.rtype).collect();
+                        ids.sort();
+                        ids.dedup();
+                        ids.retain(|x| Some(*x) != inst.rid);
+                        let mut all: Vec<u32> = vec![];
+                        for id in &ids {
+                            all.extend(enc(&if float { Inst::new("TypeFloat", None, Some(*id), vec![Arg::Lit32(64)]) } else { Inst::new("TypeInt", None, Some(*id), vec![Arg::Lit32(64), Arg::Lit32(0)]) }));
+                        }
+                        all.extend(&words);
+                        match parse_one(&all) {
+                            Ok(insts) if insts.len() == ids.len() + 1 && model::from_dr(&insts[ids.len()]) == inst => {}
+                            got => {
+                                if out.len() < 3 {
+                                    out.push(viol(
+                                        format!("C17:{}::{:#x}:parser:in-{}:ids-declared-as-64-bit-types", k, n, gi.name),
+                                        format!("parser fed {} behind 64-bit {} type declarations carrying the ids it mentions gave {:?}", inst.short(), if float { "float" } else { "int" }, got.map(|v| v.last().map(|i| format!("{:?}", i.operands)))),
+                                        json!({"kind": "c17-host", "operand_kind": k, "value": n, "host": gi.name, "ids_declared_as_types": true}),
+                                    ));
+                                }
+                            }
+                        }
+                    }
                     // under every header version 1.0 .. 1.6 (and 0.0 / 2.0): which operands follow a value is the
                     // grammar's business, not the header's
                     for version in [0x0001_0600u32, 0x0001_0000, 0x0001_0100, 0x0001_0200, 0x0001_0300, 0x0001_0400, 0x0001_0500, 0, 0x0002_0000] {
